@@ -8,12 +8,12 @@ class Prop(PropBase):
     kernels = ['parseTimeUTCWithUs', 'createTimeUTCWithUs']
     vo_targets = ['Props/Properties_C05.vo', 'Proofs/TimeCodec.vo', 'Proofs/Timestamps.vo', 'Proofs/Eq_Time.vo', 'Proofs/Timestamps2.vo']
     prop_files = ['Props/Properties_C05.v']
-    rule = ('codec kernels: parse/create of UTC (6+4 byte) and calendar (YMD, fixed-offset zones) header times at epoch/rollover/sub-second boundaries against the real '
-            'functions (glibc mktime/localtime under TZ=<fixed offset>); driver: all 17 types, lidar clock and host clock, FOV gaps (> 1 deg jumps incl. across 0 deg), '
+    rule = ('codec kernels: parse/create of UTC (6+4 byte) and calendar (YMD; fixed-offset zones, and zones with daylight saving - European, US, Australian rules - around every kind of transition) header times at epoch/rollover/sub-second boundaries against the real '
+            'functions (glibc mktime/localtime under TZ=<fixed offset> or TZ=<POSIX rule>); driver: all 17 types, lidar clock and host clock, FOV gaps (> 1 deg jumps incl. across 0 deg), '
             'DIFOP rpm/FOV changes, dual return, ts_first_point on/off, dense/NaN-kept; compared: every point, cloud and packet-record timestamp within 1 us; '
             'non-trivial = scenario with >= 1 cloud; distinct by scenario')
     explanation = 'C05_T1..T7 (Coq: UTC/YMD round trips, calendar sweep 2000..2255, point ts = hdr+block+channel, cloud ts chain, host independence) + correspondence of all timestamps'
-    assumptions = ['time zone without daylight saving (fixed UTC offset)', 'timestamps compared within 1 us + 4e-16 relative (binary64 resolution at 1.7e9 s is 0.24 us)']
+    assumptions = ['zones with daylight saving: the calendar times of the hour skipped in spring and of the two hours around the end of daylight saving (which coincide) are not generated; the daylight periods are computed from the POSIX rule by harness/tzrules.py and given to the model', 'timestamps compared within 1 us + 4e-16 relative (binary64 resolution at 1.7e9 s is 0.24 us)']
     projection = {'kinds': {'cloud', 'p', 'pkt', 'open', 'crash', 'nodrv'}, 'ignore_xyz': True, 'ignore_intensity': True, 'ignore_buf': True}
 
     def kernel_verdict(self, k, impl, model, spec):
@@ -48,6 +48,20 @@ class Prop(PropBase):
             ks.append(f'K parse_ymd {tz} {b.hex()}')
             t = rng.choice([946684800, 1700000000, 2147483647, 2147483648, 4102444800, rng.randrange(946684800 + 50000, 9000000000)]) * 1000000 + rng.randrange(1000000)
             ks.append(f'K create_ymd {tz} {t}')
+        # process time zones WITH daylight saving (northern, southern, US rules): instants around every kind of transition and inside
+        # summer / winter, written by createTimeYMD and read back by parseTimeYMD; the calendar time is interpreted in the process
+        # time zone - as daylight time when it is one. (The two hours that share their calendar times when daylight saving ends are left out.)
+        import tzrules
+        for zone in tzrules.ZONES:
+            std = tzrules.std_offset(zone); rule = tzrules.ZONES[zone][0]
+            for sec in tzrules.interesting_instants(zone, rng, 40 if tier == 'quick' else 1500):
+                near = [q for q in tzrules.periods(zone) if abs(q[0] - sec) < 3 * 366 * 86400]
+                ctx = f'{rule} {len(near)} ' + ' '.join(f'{a} {b}' for a, b in near)
+                t_us = sec * 1000000 + rng.choice([0, 1, 999999, rng.randrange(1000000)])
+                f = tzrules.ymd_fields(zone, t_us)
+                b = bytes(f[:6]) + f[6].to_bytes(2, 'big') + f[7].to_bytes(2, 'big')
+                ks.append(f'K create_ymdz {std} {t_us} {ctx}')
+                ks.append(f'K parse_ymdz {std} {b.hex()} {ctx}')
         out.append(('kern', '\n'.join(ks) + '\n'))
         scn_all = []
         reps = 2 if tier == 'quick' else 16
@@ -56,6 +70,9 @@ class Prop(PropBase):
                 if t == 'RSM1_JUMBO' and r % 4 != 0:
                     continue
                 cfg = scen.rand_cfg(rng, dense=rng.randrange(2), wait=rng.randrange(2), lclock=1, pktcb=rng.randrange(2))
+                if t in ('RS16', 'RS32', 'RSBP'):
+                    import tzrules
+                    cfg.tzd = list(tzrules.ZONES)[(r + len(t)) % 3] if r % 2 == 1 else None     # calendar header read in a zone with daylight saving: summer and winter dates
                 scn_all.append(scen.mixed_scenario(rng, self.L, t, f'c05_lidar_{t}_{r}', cfg, malformed_p=0.05, gap_p=0.25, badblk_p=0.03,
                                                    start_az=rng.choice([None, 35800, 35990, 31400]), npk=rng.choice([3, 4, 6]) if t != 'RSM1_JUMBO' else 1,
                                                    zero_gap=(r % 2 == 0), dual=(r % 4 == 0) or None, difop_at=0,
